@@ -1,6 +1,7 @@
 // C18 — load balancers. Exhaustive weight vectors and full cycles, every value of every random draw,
 // outcome histories with calls parked in flight, and schedule exploration of concurrent calls, on the
 // real balancers (rewritten copy).
+//go:debug panicnil=1
 package main
 
 import (
@@ -58,8 +59,9 @@ func pick(hd ioHandler, client *core.Client, outcome string) (idx int, err error
 	ctx := newCtx(client)
 	idx = -2
 	func() {
+		panicking := true // panic(nil): recover returns nil for it (go:debug panicnil=1)
 		defer func() {
-			if r := recover(); r != nil {
+			if r := recover(); r != nil || panicking {
 				err = fmt.Errorf("ESCAPED PANIC: %v", r)
 			}
 		}()
@@ -70,9 +72,12 @@ func pick(hd ioHandler, client *core.Client, outcome string) (idx int, err error
 				return nil, errFail
 			case "P":
 				panic("server panic")
+			case "N":
+				panic(nil)
 			}
 			return []byte("ok"), nil
 		})
+		panicking = false
 	}()
 	return
 }
@@ -361,8 +366,8 @@ func history(b balancer, depth int, tag string, pre []int) h.Scenario {
 				modelEff = append([]int{}, b.weights...)
 			}
 			for step := 0; step < len(pre)+depth; step++ {
-				// enabled operations: start a call; finish any in-flight call with S, E or P; stop
-				nops := 1 + 3*len(calls) + 1
+				// enabled operations: start a call; finish any in-flight call with S, E, P or N (panic(nil)); stop
+				nops := 1 + 4*len(calls) + 1
 				var c int
 				if step < len(pre) {
 					c = pre[step]
@@ -379,8 +384,9 @@ func history(b balancer, depth int, tag string, pre []int) h.Scenario {
 						ctx := newCtx(client)
 						var err error
 						func() {
+							panicking := true
 							defer func() {
-								if r := recover(); r != nil {
+								if r := recover(); r != nil || panicking {
 									err = fmt.Errorf("ESCAPED PANIC: %v", r)
 								}
 							}()
@@ -391,9 +397,12 @@ func history(b balancer, depth int, tag string, pre []int) h.Scenario {
 									return nil, errFail
 								case "P":
 									panic("server panic")
+								case "N":
+									panic(nil)
 								}
 								return []byte("ok"), nil
 							})
+							panicking = false
 						}()
 						vs.Send(fl.done, err)
 					})
@@ -417,7 +426,7 @@ func history(b balancer, depth int, tag string, pre []int) h.Scenario {
 					modelActive[fl.server]++
 					calls = append(calls, fl)
 				} else {
-					k, out := (c-1)/3, []string{"S", "E", "P"}[(c-1)%3]
+					k, out := (c-1)/4, []string{"S", "E", "P", "N"}[(c-1)%4]
 					fl := calls[k]
 					calls = append(calls[:k:k], calls[k+1:]...)
 					vs.Send(fl.release, out)
